@@ -402,7 +402,7 @@ func (c13) Run(e *Env) {
 				p.ip = freeIP()
 			}
 			if e.Chance(1, 6) {
-				p.hostNetwork = true
+				p.hostNetwork = e.Chance(2, 3) // otherwise only recognisable by its address being the node's
 				p.ip = c13HostIP
 				e.Probe("host-network-pod")
 			}
@@ -512,6 +512,9 @@ func (c13) Run(e *Env) {
 			apply(p, "delete")
 		case 3:
 			ip := ips[e.Draw(len(ips))]
+			if e.Chance(1, 8) {
+				ip = c13HostIP // the node's own address: pods using it are host-network pods, whatever their spec says
+			}
 			if _, ok := everHeld[ip]; !ok {
 				e.Probe("lookup-before-pod-exists")
 			}
